@@ -892,9 +892,6 @@ func normalizeKey(key string, cfg runCfg) string {
 	objOps := map[string]bool{"get": true, "reader": true, "read": true, "size": true, "has": true, "prefix": true}
 	absentish := map[string]bool{"not-found": true, "packfile-not-found": true, "no-such-file": true, "missing": true}
 	switch {
-	case cfg.Excl && (objOps[op] || op == "iter-foreach" || op == "iter") && (absentish[cls] || cls == "file-already-closed"):
-		// ExclusiveAccess: DotGit's object/pack list caches are unsynchronised; concurrent readers sort and rebuild shared slices
-		return "exclusive-access:concurrent-readers-corrupt-list-caches"
 	case cls == "file-already-closed" && cfg.Iters && (op == "reader" || op == "get" || op == "read" || op == "iter-foreach"):
 		return "object-reader-file-already-closed:with-concurrent-object-iterator"
 	case strings.HasPrefix(cfg.Writer, "repacker") && (op == "iter" || op == "iter-foreach") && absentish[cls]:
